@@ -88,9 +88,12 @@ class ConnMan:
     def _update(self):
         """
         Helper function for in-place update of bus connectivity.
+
+        Buses turned off that have not been acted on yet are kept.
         """
         self.changes['on'][...] = np.logical_and(self.busu0 == 0, self.system.Bus.u.v == 1)
-        self.changes['off'][...] = np.logical_and(self.busu0 == 1, self.system.Bus.u.v == 0)
+        self.changes['off'][...] = np.logical_or(self.changes['off'],
+                                                 np.logical_and(self.busu0 == 1, self.system.Bus.u.v == 0))
         self.busu0[...] = self.system.Bus.u.v
 
     def record(self):
@@ -155,6 +158,7 @@ class ConnMan:
                 logger.warning(f'In <{grp_name}>, turn off {devices_flat}')
 
         self.is_needed = False      # reset the action flag
+        self.changes['off'][...] = 0    # all recorded changes have been acted on
         self._update()              # update but not record
         self.system.connectivity(info=True)
         return True
